@@ -74,11 +74,11 @@ def generator_families(thorough):
     # listener life-cycle x stop verbs, from an empty worker
     fam.append(("listeners", dict(listeners=["hA", "tC", "sD", "uE"] if not thorough else ["hA", "hB", "tC", "sD", "uE"],
                                   clusters=[], hfronts=[], tfronts=[], backends=[], verbs="VerbsListeners",
-                                  maxreq=4), 0))
+                                  maxreq=5 if thorough else 4), 0))
     # routing: clusters, backends, http / tcp frontends on two serving listeners
     fam.append(("routing", dict(listeners=["hA", "tC"], clusters=["c1", "c2"], hfronts=["f1", "f2", "f3"],
                                 tfronts=["t1", "t2"], backends=["b1", "b2", "b3"] if thorough else ["b1", "b2"],
-                                verbs="VerbsRouting", preamble="ServingPreamble", maxreq=8 if thorough else 7),
+                                verbs="VerbsRouting", preamble="ServingPreamble", maxreq=9 if thorough else 7),
                 0))
     # every worker-level verb and cluster verb, in a few states, with stops
     fam.append(("worker", dict(listeners=["hA"], clusters=["c1"], hfronts=[], tfronts=[], backends=[],
@@ -122,7 +122,7 @@ def run(tier, replay=None):
         rep.finish()
 
     # ---- 1. design level
-    mc_kw = dict(maxreq=5 if thorough else 4,
+    mc_kw = dict(maxreq=5 if thorough else 4, traffic=True,
                  listeners=["hA", "hB", "tC"] if thorough else ["hA", "tC"],
                  backends=["b1", "b2"] if thorough else ["b1"])
     r = vlib.tlc("MC_WorkerCtl", write_cfg(wd, "mc.cfg", **mc_kw), PID, workers=workers,
@@ -194,7 +194,7 @@ def run(tier, replay=None):
                               name="violation_%s_%s.ndjson" % (name, v["class"].replace(":", "_").replace("/", "_")))
 
     # ---- 4. I->S
-    n_runs = 1500 if thorough else 250
+    n_runs = 1500 if thorough else 500
     chunk = 250
     accepted_runs = 0
     trace_events = 0
